@@ -1395,7 +1395,90 @@ fn two_globals() -> ! {
     std::process::exit(0)
 }
 
+/// A destination that misbehaves: a sink whose `append` panics for one entry (a test sink that
+/// asserts on what it is handed). The caller catches the panic. The global must be undamaged:
+/// the next entry is delivered to the same sink, the guard can be dropped, routing falls back,
+/// and the same kind of override can be installed again. One history per kind of destination
+/// (attached sink, thread-local test sink, runtime test sink), probes made inside the runtime.
+struct PanicOn666 {
+    inst: u64,
+}
+struct ExpectedSinkPanic;
+impl EntrySink<BoxEntry> for PanicOn666 {
+    fn append(&self, entry: BoxEntry) {
+        let mut w = IdWriter { id: None, tag: None };
+        entry.write(&mut w);
+        if w.id == Some(666) {
+            std::panic::panic_any(ExpectedSinkPanic);
+        }
+        log(Ev::Recv { inst: self.inst, id: w.id.unwrap_or(u64::MAX), tag: w.tag.unwrap_or(u64::MAX) });
+    }
+    fn flush_async(&self) -> FlushWait {
+        FlushWait::ready()
+    }
+}
+fn panicking_destinations() -> ! {
+    let rt = tokio::runtime::Builder::new_current_thread().build().expect("runtime");
+    let mut v = Violations::default();
+    let names = ["attached sink", "thread-local test sink", "runtime test sink"];
+    let mut transitions = 0u64;
+    for kind in 0..3usize {
+        let history = |upto: &str| json!({"history": [format!("install a {} whose append panics for entry 666", names[kind]), "try_append(666) - the sink panics, caught", "try_append(667)", "drop the guard / handle", "try_append(668)", "install the same kind again"], "failed_at": upto});
+        let install = |inst: u64| {
+            catch_unwind(AssertUnwindSafe(|| {
+                (
+                    (kind == 0).then(|| VerifGlobal::attach((PanicOn666 { inst }, RecHandle { inst }))),
+                    (kind == 1).then(|| VerifGlobal::set_test_sink(BoxEntrySink::new(PanicOn666 { inst }))),
+                    (kind == 2).then(|| VerifGlobal::set_test_sink_for_tokio_runtime(rt.handle(), BoxEntrySink::new(PanicOn666 { inst }))),
+                )
+            }))
+        };
+        let append = |id: u64| -> Result<(Option<u64>, Vec<u64>), ()> {
+            let before = lock(&LOG).len();
+            let r = catch_unwind(AssertUnwindSafe(|| rt.block_on(async { VerifGlobal::try_append(VEntry { id, tag: tag_of(id) }).err().map(|e| e.id) })));
+            let got: Vec<u64> = lock(&LOG)[before..].iter().filter_map(|e| if let Ev::Recv { inst, id: i, .. } = e { (*i == id).then_some(*inst) } else { None }).collect();
+            r.map(|back| (back, got)).map_err(|_| ())
+        };
+        let inst = 21 + kind as u64;
+        let g = match install(inst) {
+            Ok(g) => g,
+            Err(_) => {
+                v.add("misbehaving-destination:install-panicked", format!("installing a {} panicked", names[kind]), history("install"));
+                continue;
+            }
+        };
+        transitions += 5;
+        if append(666).is_ok() {
+            v.add("misbehaving-destination:panic-not-propagated", format!("{}: the sink's panic for entry 666 did not reach the caller", names[kind]), history("try_append(666)"));
+        }
+        match append(667) {
+            Ok((None, got)) if got == vec![inst] => {}
+            other => v.add("misbehaving-destination:global-damaged-after-a-sink-panic", format!("{}: after the sink panicked for one entry (caught), the next entry was {} instead of being delivered to that sink", names[kind], match other { Err(()) => "answered with a panic".to_string(), Ok((back, got)) => format!("delivered to {got:?} (handed back: {})", back.is_some()) }), history("try_append(667)")),
+        }
+        if catch_unwind(AssertUnwindSafe(move || drop(g))).is_err() {
+            v.add("misbehaving-destination:global-damaged-after-a-sink-panic", format!("{}: dropping the guard / handle after the sink had panicked panics", names[kind]), history("drop"));
+        }
+        match append(668) {
+            Ok((Some(668), got)) if got.is_empty() => {}
+            other => v.add("misbehaving-destination:global-damaged-after-a-sink-panic", format!("{}: after the guard was dropped an entry was {} instead of being handed back", names[kind], match other { Err(()) => "answered with a panic".to_string(), Ok((back, got)) => format!("delivered to {got:?} (handed back: {})", back.is_some()) }), history("try_append(668)")),
+        }
+        match install(31 + kind as u64) {
+            Ok(g2) => {
+                let _ = catch_unwind(AssertUnwindSafe(move || drop(g2)));
+            }
+            Err(_) => v.add("misbehaving-destination:global-damaged-after-a-sink-panic", format!("{}: installing the same kind of destination again panics", names[kind]), history("install again")),
+        }
+    }
+    let viol: Vec<J> = v.by_key.values().map(|v| json!({"key": v.key, "what": v.what, "replay": v.replay, "count": v.count})).collect();
+    println!("{}", json!({"histories": 3, "transitions": transitions, "cleanup_ops": 0, "restore_checks": 3, "states": [], "outcomes": vec![0u64; 13], "violations": viol, "aborted": false, "extra": {}}));
+    std::process::exit(0)
+}
+
 fn child_main(a: &[String]) -> ! {
+    if a.first().map(|s| s.as_str()) == Some("panicking-destinations") {
+        std::panic::set_hook(Box::new(|_| {}));
+        panicking_destinations();
+    }
     if a.first().map(|s| s.as_str()) == Some("two-globals") {
         std::panic::set_hook(Box::new(|_| {}));
         two_globals();
@@ -1720,6 +1803,13 @@ fn parent_main() {
         exhaustive = false;
     }
     spaces_json.push(json!({"space": "two globals in one process: {nothing, attached, thread-local test sink, runtime test sink} for each, both install orders; one append through each global inside the runtime, then everything dropped and one append through each again", "histories_in_space": 32, "histories_executed": 32}));
+
+    // 2f. destinations whose append panics for one entry (caught by the caller)
+    let outs_p = run_jobs(&[vec![s("panicking-destinations")]], 1);
+    if merge(&outs_p, &mut tot, &mut rep) != 3 {
+        exhaustive = false;
+    }
+    spaces_json.push(json!({"space": "fixed histories: an attached / thread-local / runtime destination whose append panics for one entry; the next entry, the guard's drop, the fall-back and a re-install must work", "histories_in_space": 3, "histories_executed": 3}));
 
     // 3. forget anywhere: one fresh process per history
     let fa_cfg = EnumCfg { depth: forget_anywhere_len, sym: false, max_obs: unlimited, allow_forget: true };
